@@ -138,10 +138,10 @@ PROPS = {
                 "single insertion of 12 multi-byte characters (incl. 6 whose case mapping changes the UTF-8 length: U+0130, U+212A, U+023A, U+1E9E, U+0390, U+FB01) into 5 expressions; every seed x blank position x entry point with such a character directly before the blank, and with it earlier plus a multi-byte character after the following token; 19 valid seed texts (incl. string literals with escaped quotes / backslashes, a window duration at the u64 limit) and their mutants (truncate, duplicate a segment, insert a multi-byte character / a token, splice with another seed, delete, "
                 "replace by a delimiter, replace a digit run by one of 8 limit numbers); EVERY prefix of every seed (3 entry points each; thorough: all), every seed x digit run x limit number x entry point; token soups of 48 GRL/query tokens; lossily decoded raw bytes; prefix chains and nestings (!, (, [, {, NOT, -, !(, exists() of depth 33, 500 and up to 4 KiB. The batch runs in a child "
                 "process: a panic is caught per case, a stack overflow/abort or 120 s without progress marks the case and the run continues. non-trivial = every case Expression-parser stream: 5000 (quick) / 30000 (thorough) token strings over the query alphabet plus every prefix and suffix of four queries, AST compared with the model. Evaluator chains: 8 (quick) / 60 (thorough) random chains and as many plain sums of products of 18..40 terms over missing identifiers (a failing operand must be reported at once).",
-        "level_text": "Theorem for the expression evaluator, for EVERY string: no slice off a character boundary or out of range, termination with recursion depth <= length+1 (every slice of the code carries its byte offsets in the "
+        "level_text": "Theorems (Proofs/BwSmallProofs.v) for parse_aggregate_query / parse_function_call, NestedQueryParser::parse / has_nested and DisjunctionParser::parse / contains_or / split_top_level_or, for EVERY text: the byte offsets handed to slices are the offsets of a decomposition of the text (str::find / rfind of one-byte characters and of the keyword), Vec<char> indices stay below the length under the guards of the code, the loops advance. Theorem for the expression evaluator, for EVERY string: no slice off a character boundary or out of range, termination with recursion depth <= length+1 (every slice of the code carries its byte offsets in the "
                 "model, a bad slice is the value RPanic). On the identifier alphabet the model's exact outcome (first failing leaf) is compared with the code. All other entry points are exercised by the fuzzing streams under "
                 "the crash/hang watchdog; the verdict per case is the Coq-defined ExprShape.ok (returned a value or an error). Second modelled parser (Model/BwExpr.v): the backward-chaining ExpressionParser (recursive descent over a Vec<char> with an index; reached through ExpressionParser::parse, QueryParser and GRLQuery) - theorem for EVERY string and every character classification: no index / slice of the parser is out of range and the mutual recursion with its two loops ends within depth 6*length+8; on a query alphabet (identifiers, all literal kinds with escapes, signed / dotted numbers, every operator, parentheses, negation, variables, non-ASCII letters / digits / blanks / symbols) the model predicts the AST or the error exactly and is compared with the code; QueryParser::parse (empty query, trim, optional leading NOT) is modelled on top of it with the same theorem and comparison.",
-        "level_note": "Partial: evaluate_expression and the backward-chaining ExpressionParser are modelled and proved; the other GRL / query / stream parsers depend on the third-party crates rexile and nom, whose time and stack behaviour is not expressible in Gallina and is "
+        "level_note": "Partial: evaluate_expression, the backward-chaining ExpressionParser / QueryParser, parse_aggregate_query, NestedQueryParser and DisjunctionParser are modelled and proved (no bad slice, no bad index, termination, for every text; the last three also predicted exactly, result for result, by Model/BwSmall.v); the other GRL / query / stream parsers depend on the third-party crates rexile and nom, whose time and stack behaviour is not expressible in Gallina and is "
                 "covered by the watchdog harness only. Known finding C05-rexile-multibyte-before-keyword (monitor class 2). Trusted: Coq kernel; model of expression.rs after fixes 32df0c7/aee5bb9; char::is_whitespace and "
                 "str::parse as parameters; harness; extraction. Axioms: none.",
         "trusted_base": ["rexile 0.5.8 and nom 8 (third-party parsers): not modelled"],
